@@ -533,7 +533,7 @@ def _pending(bb):
     return dict(getattr(bb, "_BasicBlock__replaceUses")), dict(getattr(bb, "_BasicBlock__replacements"))
 
 
-@family("IR.opt.las", props=["C02", "C14", "C15"], functions=[LAS + ".v_VariableAccessInstruction", L + "::BasicBlock.GetPreviousInstruction"],
+@family("IR.opt.las", props=["C02", "C14", "C15", "C12"], functions=[LAS + ".v_VariableAccessInstruction", L + "::BasicBlock.GetPreviousInstruction"],
         assumptions=["instruction sequences enumerated: [store?] [0-2 intervening instructions of every kind] load, in one or two blocks; names are unique across scopes (C12), so a same-name store in another scope is left unconstrained"])
 def opt_las(R):
     """Soundness of load-after-store forwarding: whenever the visitor forwards a load L of variable x to a value v and removes L, there is a
@@ -560,6 +560,8 @@ def opt_las(R):
         "store-other": lambda bb, v, sc: [store(bb, "y", v, sc)],
         "load-other": lambda bb, v, sc: [load(bb, "y", sc)],
         "declare": lambda bb, v, sc: [bb.AddInstruction(ir.DeclareVariableInstruction(I, "z", S.FUNCTION_LOCAL))],
+        # a declaration of the SAME name between the store and the load creates a fresh, zero-initialised variable (sibling scopes reusing a name)
+        "declare-same": lambda bb, v, sc: [bb.AddInstruction(ir.DeclareVariableInstruction(I, "x", S.FUNCTION_LOCAL))],
         "call+binary": lambda bb, v, sc: [bb.AddInstruction(ir.CallInstruction(I, "g", [])), bb.AddInstruction(ir.BinaryInstruction(ir.OpCode.ADD, I, v, v))],
     }
     for scope in (S.FUNCTION_LOCAL, S.GLOBAL, S.FUNCTION_ARGUMENT):
@@ -587,6 +589,8 @@ def opt_las(R):
                         last_store, clean = ins, True
                     elif isinstance(ins, ir.CallInstruction) and scope == S.GLOBAL:
                         clean = False          # only a global can be changed by a callee
+                    elif isinstance(ins, ir.DeclareVariableInstruction) and ins.Name == "x" and scope == S.FUNCTION_LOCAL:
+                        last_store, clean = None, False      # the variable was re-created: nothing stored before is its value
                 valid = last_store is not None and clean and forwarded and ru[ld.Reference] is last_store.Store
                 R.check(f"IR.opt.las.sound[{label}]", LAS + ".v_VariableAccessInstruction", (not forwarded) or valid,
                         detail=f"load of x forwarded to {'the value of a store that is not the last store to x / across a call' if forwarded else ''} (sequence: {[type(i).__name__ + ('!' if getattr(i, 'Store', None) is not None else '') for i in seq]})")
@@ -787,6 +791,10 @@ def pipeline(R):
         ct = nm.index("ComputeTypeVisitor")
         R.check("P.ast-passes.order", "nsl.Compiler::Compiler.__init__", nm.index("RewriteAssignEqualVisitor") < ct and all(nm.index(n) > ct for n in need[3:]),
                 detail=f"typing must run after the compound-assignment rewrite and before every validator and the cast pass: {nm}")
+        # the validators judge the program AS WRITTEN: the cast pass wraps a float index in an implicit int cast, so it must run after them
+        cp = nm.index("AddImplicitCastVisitor")
+        R.check("P.ast-passes.validators-before-casts", "nsl.Compiler::Compiler.__init__", all(nm.index(n) < cp for n in need[3:9]),
+                detail=f"every validator must run before the implicit-cast pass: {nm}")
     irn = [(getattr(p, "Name", "?"), bool(p.Flags & PassFlags.IsOptimization)) for p in c.irPasses]
     R.check("P.ir-passes.flags", "nsl.Compiler::Compiler.__init__", ("rewrite-function-arg-accessor", False) in irn and ("optimize-constant-cast", True) in irn and ("optimize-load-after-store", True) in irn,
             detail=f"IR passes and optimisation flags: {irn}")
